@@ -3,6 +3,7 @@
 package stage
 
 import (
+	"path/filepath"
 	"time"
 
 	"github.com/arm-doe/sts"
@@ -77,3 +78,9 @@ func (s *Stage) VerifCleanWaiting() { s.cleanWaiting() }
 
 // VerifCleanCache runs the cache ageing (normally triggered every cacheCnt files).
 func (s *Stage) VerifCleanCache() { s.cleanCache() }
+
+// VerifState returns the cache state of a name without side effects: -1 unknown, 0 received,
+// 1 validated, 2 failed, 3 finalized, 4 logged.
+func (s *Stage) VerifState(name string) int {
+	return s.getFileState(filepath.Join(s.rootDir, name))
+}
